@@ -280,7 +280,13 @@ class Exits:
         finally:
             self._busy.discard(loc)
         if len(desc) > 360:
-            desc = desc[:80] + '…#' + hashlib.sha1(desc.encode()).hexdigest()[:12]
+            dg = hashlib.sha1(desc.encode()).hexdigest()[:12]
+            try:
+                from . import facts as _facts
+                _facts.ABBR[dg] = _facts.leaves(desc)       # what the abbreviation stands for (nested abbreviations expanded)
+            except Exception:
+                pass
+            desc = desc[:80] + '…#' + dg
         if not self._cyc:
             self._memo[loc] = desc
         self._cyc = self._cyc or outer_cyc
